@@ -146,6 +146,34 @@ def reader_rules(ctx, P):
         ctx.check(P + ':reader:defer-only-final-cr-of-full-window', 'R-dom', 'the last octet of a window is held back only when the window is full and that octet is CR', ok1 and ok2 and len(subs) == 1, function=b.path)
         puts = [i for i, t in b.calls(r'BufMut::put_u8$') if any('k' in a and a['k'].get('v') == 13 for a in t['args'][1:]) or has_origin(b.operand_origins(t['args'][1]), r'const:13:u8$')]
         ctx.check(P + ':reader:settles-with-cr', 'R-table', 'a held-back CR that is not followed by LF is emitted as CR', len(puts) == 1, function=b.path)
+        # ... also when the refill delivered nothing (the held-back CR was the last octet of the text): the settling put is reachable
+        # along the `read == 0` edges of every test of the read count
+        from rules.common import direct_cmp_switches
+        removed = set()
+        for g, op, side in direct_cmp_switches(b, lambda k, v: k == 'place' and v.get('l') == 2 and not v.get('pr'), lambda c: c == 0):
+            tt = b.blocks[g]['t']
+            a, c = (0, 0)
+            truth0 = {'Lt': (0 < 0), 'Le': True, 'Gt': False, 'Ge': True, 'Eq': True, 'Ne': False}[op] if side == 0 else \
+                     {'Lt': False, 'Le': True, 'Gt': False, 'Ge': True, 'Eq': True, 'Ne': False}[op]
+            neg = False
+            for s_ in reversed(b.blocks[g]['s']):
+                if s_['d']['l'] == tt['o'].get('l') and s_['r']['k'] == 'un' and s_['r']['op'] == 'Not':
+                    neg = True
+                break
+            val = int(truth0 != neg)
+            zero_tgt = None
+            for v, bb in tt['targets']:
+                if v == val:
+                    zero_tgt = bb
+            if zero_tgt is None:
+                zero_tgt = tt['else']
+            for j, _ in b.succ(g):
+                if j != zero_tgt:
+                    removed.add((g, j))
+        reach0 = b.reach_from([0], removed_edges=frozenset(removed))
+        ctx.check(P + ':reader:settles-cr-on-empty-refill', 'R-dom', 'the held-back CR is emitted also when the next refill is empty (the put is reachable with read == 0)',
+                  bool(puts) and all(i in reach0 for i in puts), function=b.path,
+                  missing=None if (puts and all(i in reach0 for i in puts)) else 'the settling put_u8(CR) is only reachable when the refill delivered data: a text that ends in CR exactly at a window edge loses that CR')
     b = ctx.body(NR + 'fill_buffer')
     if b is not None:
         oks = ok_exit_blocks(b)
